@@ -14,6 +14,7 @@ vS    == <<"s">>
 ValsFull  == {<<>>, vX, vXY, vXY1, vXY12, vZXY1, vY, vXS, vS}
 ValsMid   == {<<>>, vX, vXY, vXY1, vZXY1, vY}
 ValsSmall == {<<>>, vX, vXY}
+ValsTiny  == {<<>>, vXY}
 
 \* the regex family: one representative per fast path of tag_filters.go
 rLitXY      == << <<"lit", vXY>> >>                                  \* /xy/      pure literal
